@@ -6,6 +6,7 @@ expat into a tree that keeps every text node and the raw xmlns attributes; the t
 with the one computed from the tuple by the mapping of reference/converters.md.
 """
 import itertools
+import re
 import xml.parsers.expat
 
 from vf import core
@@ -50,9 +51,15 @@ def is_list(w):
     return isinstance(w, dict) and "l" in w
 
 
+def _xml10_char_ok(s):
+    return all(ch in "\t\n\r" or "\u0020" <= ch <= "\ud7ff" or "\ue000" <= ch <= "\ufffd" or ch >= "\U00010000" for ch in s)
+
+
 def expected_node(w):
     """-> ("text", s) | ("elem", name, attrs, children)"""
     if isinstance(w, str):
+        if not _xml10_char_ok(w):
+            raise Malformed("text holds a character XML 1.0 cannot carry")
         return ("text", w)
     if not is_tuple(w):
         raise Malformed("node is neither a tuple nor a string")
@@ -67,6 +74,8 @@ def expected_node(w):
     if has_name and has_text:
         raise Malformed("both name and text")
     if has_text:
+        if not _xml10_char_ok(text[1]):
+            raise Malformed("text holds a character XML 1.0 cannot carry")
         return ("text", text[1])
     if not has_name:
         raise Malformed("tuple node with neither name nor text")
@@ -80,6 +89,8 @@ def expected_node(w):
                 continue
             if not isinstance(v, str):
                 raise Malformed("attribute value is not a string")
+            if not _xml10_char_ok(v):
+                raise Malformed("attribute value holds a character XML 1.0 cannot carry")
             attrs[k] = v
     ns = t_get(w, "ns")
     if ns[0] == "present" and ns[1] is not None:
@@ -113,6 +124,10 @@ def expected_doc(w):
     enc = t_get(w, "encoding")
     if enc[0] == "present" and not isinstance(enc[1], str):
         raise Malformed("encoding")
+    if enc[0] == "present" and not re.fullmatch(r"[A-Za-z][A-Za-z0-9._-]*", enc[1]):
+        raise Malformed("encoding is not an encoding name")
+    if version[0] == "present" and isinstance(version[1], str) and not re.fullmatch(r"1\.[0-9]+", version[1]):
+        raise Malformed("version")
     node = expected_node(root[1])
     if node[0] != "elem":
         raise Malformed("the root of an XML document is an element")
@@ -302,6 +317,22 @@ def documents(thorough):
         yield "ns-uri-default|%d" % i, doc(elem("r", ns=P(u), children=P(L(elem("c")))))
         yield "ns-uri-prefixed|%d" % i, doc(elem("p:r", ns=P(T(("prefix", "p"), ("uri", u))), children=P(L(elem("p:c")))))
         yield "ns-uri-child|%d" % i, doc(elem("r", children=P(L(elem("c", ns=P(u)), "t"))))
+    # characters an XML 1.0 document cannot carry at all (not even as a character reference): the description is not an XML document
+    for i, ch in enumerate(["\u0001", "\u0008", "\u000b", "\u000c", "\u001f", "\ufffe", "\uffff"]):
+        yield "unrepresentable-char-in-text|%d" % i, doc(elem("r", children=P(L("a" + ch + "b"))))
+        yield "unrepresentable-char-in-attribute|%d" % i, doc(elem("r", attrs=P(T(("k", "a" + ch + "b")))))
+    # a declared encoding other than the one the bytes are in
+    for enc in ("ISO-8859-1", "utf-16", "us-ascii"):
+        yield "encoding-declared:%s" % enc, T(("encoding", enc), ("root", elem("r", children=P(L("é")))))
+    yield "encoding-value-with-quote", T(("encoding", 'utf-8" standalone="yes'), ("root", elem("r")))
+    yield "version-value-with-quote", T(("version", '1.0" encoding="x'), ("root", elem("r")))
+    # a prefix bound, re-bound and bound back three levels deep; a default namespace undeclared with ""
+    for a, b in (("urn:A", "urn:B"),):
+        pa, pb = T(("prefix", "p"), ("uri", a)), T(("prefix", "p"), ("uri", b))
+        inner_p = elem("p:i", ns=P(pa))
+        inner_d = elem("i", ns=P(a))
+        yield "ns-rebound-and-back:prefixed", doc(elem("top", children=P(L(elem("g", ns=P(pa), children=P(L(elem("h", ns=P(pb), children=P(L(inner_p))))))))))
+        yield "ns-rebound-and-back:default", doc(elem("top", children=P(L(elem("g", ns=P(a), children=P(L(elem("h", ns=P(b), children=P(L(inner_d))))))))))
     # declaration
     for v in [("absent",), P("1.0"), P("1.1"), P("2.0"), P("1"), P(None), P({"i": "1"})]:
         for e in [("absent",), P("utf-8"), P("UTF-8")]:
